@@ -108,12 +108,20 @@ class TG:
         return None
 
 
-def shutdown(exited, exit_on_term, exit_on_kill, term_raises, tg_mode, outer_cancel, has_tg, kill_raises=False):
+def shutdown(exited, exit_on_term, exit_on_kill, term_raises, tg_mode, outer_cancel, has_tg, kill_raises=False, reader_eof=False):
     ENV.reset([])
-    W.outer_cancelled, W.shield_depth = bool(outer_cancel), 0
+    W.outer_cancelled, W.shield_depth = False, 0
     c = make_client()
     p = Proc(exited, exit_on_term, exit_on_kill, term_raises, kill_raises)
     c.process = p
+    if reader_eof:
+        # the child closed its stdout (or wrote its last line) before the context is left: the reader task has seen
+        # end-of-stream while the process may well be alive
+        from harness.stdio_fake import FakeStdout
+
+        p.stdout = FakeStdout([b'{"jsonrpc":"2.0","method":"notifications/message"}\n'])
+        drive(c._stdout_reader())
+    W.outer_cancelled = bool(outer_cancel)
     tg = TG(tg_mode) if has_tg else None
     c.tg = tg
     raised = None
